@@ -54,11 +54,30 @@ func retVal(r *ssa.Return, i int) ssa.Value {
 
 type target func(ssa.Instruction) bool
 
+// retConstBool: a return whose result idx is the boolean constant val (and
+// nothing else: a computed result that happens to be val is not matched).
+func retConstBool(idx int, val bool) target {
+	return func(i ssa.Instruction) bool {
+		r, ok := i.(*ssa.Return)
+		if !ok {
+			return false
+		}
+		if curRet.r == r {
+			return curRet.konst && curRet.idx == idx && curRet.outcome == val
+		}
+		v, isC := constBool(retVal(r, idx))
+		return isC && v == val
+	}
+}
+
 func retBool(idx int, val bool) target {
 	return func(i ssa.Instruction) bool {
 		r, ok := i.(*ssa.Return)
 		if !ok {
 			return false
+		}
+		if curRet.r == r && curRet.idx == idx {
+			return curRet.outcome == val // the Walker is visiting this outcome of a non-constant result
 		}
 		v, isC := constBool(retVal(r, idx))
 		return isC && v == val
@@ -100,6 +119,23 @@ func countTargets(fn *ssa.Function, t target) int {
 	eachInstr(fn, func(i ssa.Instruction) {
 		if t(i) {
 			n++
+			return
+		}
+		// a non-constant boolean result stands for both outcomes
+		if r, ok := i.(*ssa.Return); ok {
+			if k := boolResultIndex(i.Parent()); k >= 0 && k < len(r.Results) {
+				if _, isC := constBool(retVal(r, k)); !isC {
+					for _, o := range []bool{true, false} {
+						curRet.r, curRet.idx, curRet.outcome = r, k, o
+						hit := t(i)
+						curRet.r = nil
+						if hit {
+							n++
+							return
+						}
+					}
+				}
+			}
 		}
 	})
 	return n
